@@ -31,6 +31,9 @@ func (o c06Op) String() string {
 	if o.Kind == "wait" {
 		return "WaitTimeout"
 	}
+	if o.Kind == "wait-deverr" {
+		return "WaitTimeout(device refuses the rollback)"
+	}
 	return o.Kind + "(" + o.ID + ")"
 }
 
@@ -46,7 +49,8 @@ func c06Alphabet() []c06Op {
 			ops = append(ops, c06Op{k, id})
 		}
 	}
-	return append(ops, c06Op{"wait", ""})
+	// wait-deverr: the timeout elapses while the device refuses the Set of the automatic rollback
+	return append(ops, c06Op{"wait", ""}, c06Op{"wait-deverr", ""})
 }
 
 // c06Run executes one sequence in a fresh world inside the controlled runtime and returns the violations.
@@ -208,6 +212,17 @@ func c06Run(u *Universe, wc *WorkerCache, seq []c06Op) (viol []string, outcome s
 				verifrt.FireTimers()
 				verifrt.Quiesce()
 				if open != "" {
+					wantDev = 1
+					open = ""
+				}
+			case "wait-deverr":
+				w.Dev.FailCall[w.Dev.NumCalls()] = errors.New("verif: device rejects the rollback")
+				verifrt.FireTimers()
+				verifrt.Quiesce()
+				delete(w.Dev.FailCall, w.Dev.NumCalls())
+				if open != "" {
+					// the rollback was attempted and refused; the transaction is resolved all the same (nobody is left to
+					// repeat anything) and the datastore must accept new transactions
 					wantDev = 1
 					open = ""
 				}
